@@ -29,6 +29,12 @@ func c18Layouts(tier string) []c18Layout {
 		{"two redis servers, distinct prefixes", []world.FilterSpec{f("a", "pa", "r1", 3600, 0), f("b", "pb", "r2", 100, 0)}},
 		{"one redis server, two databases", []world.FilterSpec{f("a", "pa", "r1/0", 3600, 0), f("b", "pb", "r1/1", 100, 50)}},
 	}
+	d := func(name, prefix string) world.FilterSpec {
+		x := f(name, prefix, "", 0, 0)
+		x.Discovery, x.Logout, x.ViaOverride = true, true, true
+		return x
+	}
+	ls = append(ls, c18Layout{"default+overrides, discovery, shared logout block", []world.FilterSpec{d("a", "pa"), d("b", "pb")}})
 	if tier == "thorough" {
 		ls = append(ls,
 			c18Layout{"three filters memory", []world.FilterSpec{f("a", "pa", "", 0, 0), f("b", "pb", "", 0, 0), f("c", "", "", 0, 0)}},
@@ -73,6 +79,11 @@ func c18Model(run *ev.Run, layout c18Layout) seqx.Model {
 	var evs []seqx.Event
 	for i := range layout.Filters {
 		evs = append(evs, seqx.Event{Kind: "login", N: i})
+	}
+	for j, fj := range layout.Filters {
+		if fj.Logout {
+			evs = append(evs, seqx.Event{Kind: "logout", N: j})
+		}
 	}
 	for i := range layout.Filters {
 		for j := range layout.Filters {
@@ -151,6 +162,26 @@ func c18Model(run *ev.Run, layout c18Layout) seqx.Model {
 							fmt.Sprintf("session of filter %s (absolute=%ds idle=%ds) has TTL %v in Redis, expected about %v: another filter's time-outs govern it", f.Name, f.Abs, f.Idle, ttl, want), full)
 					}
 				}
+			case "logout":
+				fj := layout.Filters[e.N]
+				cookies := map[string]string{}
+				if se, ok := s.sess[e.N]; ok {
+					cookies[se[1]] = se[0]
+					delete(s.sess, e.N)
+				}
+				res := s.sw.Do(world.SReq{Tenant: fj.Name, Path: s.sw.LogoutPath(fj), Cookies: cookies})
+				if !live {
+					return
+				}
+				run.Class(fmt.Sprintf("logout|%s|cookie=%v|http=%d", fj.Name, len(cookies) > 0, res.HTTPStatus))
+				if res.Err != "" || res.Panic != "" {
+					run.Violation("C18 logout-error filter="+fj.Name, res.Err+res.Panic, full)
+					return
+				}
+				want := "http://" + s.sw.RealmHost(fj) + "/logout"
+				if res.HTTPStatus != 302 || res.Location != want {
+					run.Violation("C18 logout-redirects-to-foreign-end-session-endpoint", fmt.Sprintf("logout at filter %s redirects to %q, its own provider's end-session endpoint is %q", fj.Name, res.Location, want), full)
+				}
 			case "probe":
 				i, j := e.N, e.Adv
 				se, ok := s.sess[i]
@@ -217,6 +248,10 @@ func c18Model(run *ev.Run, layout c18Layout) seqx.Model {
 			s := sy.(*c18Sys)
 			var out []seqx.Event
 			for _, e := range evs {
+				if e.Kind == "logout" {
+					out = append(out, e)
+					continue
+				}
 				if e.Kind == "login" {
 					if _, done := s.sess[e.N]; !done {
 						out = append(out, e)
@@ -243,6 +278,14 @@ func c18Model(run *ev.Run, layout c18Layout) seqx.Model {
 					}
 				}
 				fmt.Fprintf(&sb, "%s:%v/%v;", f.Name, ok, alive)
+			}
+			// configuration state that discovery fills in lazily (which filter was served first matters)
+			for _, ch := range s.sw.Cfg.GetChains() {
+				for _, fl := range ch.GetFilters() {
+					if o := fl.GetOidc(); o != nil {
+						fmt.Fprintf(&sb, "|%s:%v:%v", ch.GetName(), o.GetAuthorizationUri() != "", strings.Contains(o.GetLogout().GetRedirectUri(), "idp-"+ch.GetName()))
+					}
+				}
 			}
 			return sb.String() + fmt.Sprint(len(hist0(s)))
 		},
@@ -302,6 +345,9 @@ func c18Run(run *ev.Run) {
 	for _, l := range c18Layouts(run.Tier) {
 		m := c18Model(run, l)
 		m.MaxDepth = len(l.Filters) + 2
+		if strings.Contains(l.Name, "overrides") {
+			m.MaxDepth = len(l.Filters) + 3
+		}
 		st := seqx.Explore(run, m)
 		total.States += st.States
 		total.Transitions += st.Transitions
